@@ -135,7 +135,10 @@ add("C32", "formula", "exploration", "runtime monitor: before/after relations ar
     "Stored name formulas must be the expected ones (unchanged, or carrying the renamed sheet / name) and every judged cell must show the same value after the edit.",
     "The engine only accepts a reference, a range or a LAMBDA as a name's formula, which bounds the generator. After a sheet deletion, names scoped to or reading that sheet and the cells using them are not judged.")
 
-NOT_YET = {}
+NOT_YET = {
+    "C16": "runtime monitoring applies (a before/after relation around cut/copy-paste over the snapshot, with the harness's RS-style reference mapping), but the monitor was not built in the time available; the paste operations are exercised only as steps of the history monitors (C01-C04, C26, C27), which do not decide this property. Not claimed.",
+    "C33": "runtime monitoring applies (the structure engine's line mapping extended to link and conditional-format facts), but the monitor was not built in the time available; link and conditional-format facts are part of the snapshot used by C01-C04/C24/C26, which do not decide this property. Not claimed.",
+}
 
 def main():
     props = [json.loads(l) for l in open(os.path.join(HERE, "properties.jsonl"))]
